@@ -66,7 +66,7 @@ def measure(cls, data, limit_s=20):
             except RecursionError:
                 outcome = 'recursion'
             except BaseException as e:  # noqa
-                outcome = type(e).__name__
+                outcome = core.ename(e)
             finally:
                 mon.set_events(TOOL, 0)
     except core.Timeout:
